@@ -15,7 +15,7 @@ mutual
 def renderE : PyE → String
   | .name n => n
   | .attr q n => q ++ "." ++ n
-  | .attr2 q o n => q ++ "." ++ o ++ "." ++ n
+  | .attr2 q o n => (if q == "" then "" else q ++ ".") ++ o ++ "." ++ n
   | .quoted n => "'" ++ n ++ "'"
   | .sub h as => renderE h ++ "[" ++ renderEs as ++ "]"
   | .lit t _ => t
@@ -68,6 +68,9 @@ def renderImport : String × PyImport → String
 
 def renderModule (m : PyModule) : String :=
   (if m.imports.isEmpty then "" else joinWith "\n" (m.imports.map renderImport) ++ "\n\n\n")
-    ++ joinWith "\n\n\n" (m.decls.map renderDecl) ++ "\n"
+    -- quirk of generateSchema: the counter `i` is never incremented, so "two blank lines between objects,
+    -- except at the end of the file" writes them after EVERY object unless the schema has exactly one
+    ++ (if m.decls.length == 1 then joinWith "" (m.decls.map renderDecl)
+        else String.join (m.decls.map fun d => renderDecl d ++ "\n\n\n")) ++ "\n"
 
 end Cog.Sem.PyDecl
